@@ -385,3 +385,105 @@ Proof.
         apply cfit_event_is_derive; assumption.
       * apply IH. exact HP'.
 Qed.
+
+(* ---- additions of the C07 hunt-fix round ---- *)
+
+(* constraints sharing one variable cell: value term -> gradient term -> Hessian term *)
+Theorem gauss_cell_grad_is_derive (ms : list (R * R)) (th : R) :
+  is_derive (fun x => gauss_term (gauss_cell x ms)) th (gauss_cell_grad th ms).
+Proof.
+  unfold gauss_term, gauss_cell_grad, gauss_cell. induction ms as [|[m s] ms IH].
+  - cbn [map rsum]. apply is_derive_const_R.
+  - cbn [map rsum fst snd].
+    apply (is_derive_plus (fun x => gauss_one (x, m, s))
+             (fun x => rsum (map gauss_one (map (fun c : R * R => (x, fst c, snd c)) ms))) th
+             (gauss_grad (th, m, s))).
+    + apply gauss_grad_is_derive.
+    + exact IH.
+Qed.
+
+Theorem gauss_cell_hess_is_derive (ms : list (R * R)) (th : R) :
+  is_derive (fun x => gauss_cell_grad x ms) th (gauss_cell_hess th ms).
+Proof.
+  unfold gauss_cell_grad, gauss_cell_hess, gauss_cell. induction ms as [|[m s] ms IH].
+  - cbn [map rsum]. apply is_derive_const_R.
+  - cbn [map rsum fst snd].
+    apply (is_derive_plus (fun x => gauss_grad (x, m, s))
+             (fun x => rsum (map gauss_grad (map (fun c : R * R => (x, fst c, snd c)) ms))) th
+             (gauss_hess (th, m, s))).
+    + apply gauss_hess_is_derive.
+    + exact IH.
+Qed.
+
+Theorem total_shared_is_derive (N : R -> R) (th g : R) (ms : list (R * R)) :
+  is_derive N th g ->
+  is_derive (fun x => fcn_total (N x) (gauss_cell x ms)) th (grad_total g (gauss_cell_grad th ms)).
+Proof.
+  intros H. unfold fcn_total, grad_total.
+  apply (is_derive_plus N (fun x => gauss_term (gauss_cell x ms)) th g (gauss_cell_grad th ms)); [exact H|].
+  apply gauss_cell_grad_is_derive.
+Qed.
+
+(* the old gradient (constraint on the tied non-head name skipped) is not the derivative of the value *)
+Theorem gauss_tied_old_refuted :
+  exists (ms : list (bool * (R * R))) (th : R),
+    ~ is_derive (fun x => gauss_term (gauss_cell x (map snd ms))) th (gauss_cell_grad_old th ms).
+Proof.
+  exists [(false, (0, 1))], 1. intros H.
+  pose proof (gauss_cell_grad_is_derive [(0, 1)] 1) as H1. cbn [map snd] in H.
+  pose proof (is_derive_unique _ _ _ H) as E. rewrite (is_derive_unique _ _ _ H1) in E.
+  unfold gauss_cell_grad, gauss_cell_grad_old, gauss_cell, gauss_grad in E. cbn [map rsum fst snd] in E. lra.
+Qed.
+
+(* Cached_FG NaN repair: the central difference is exact on quadratics and is the derivative up to
+   c h^2 on cubics; the old quotient is half the derivative (plus a/2 h) *)
+Theorem fd_central_cubic (a b c d x h : R) : h <> 0 ->
+  fd_central (fun u => d * (u * u * u) + a * (u * u) + b * u + c) x h = (3 * d * (x * x) + 2 * a * x + b) + d * (h * h).
+Proof. intros Hh. unfold fd_central. field. exact Hh. Qed.
+
+Theorem fd_central_cubic_is_derive (a b c d x : R) :
+  is_derive (fun u => d * (u * u * u) + a * (u * u) + b * u + c) x (3 * d * (x * x) + 2 * a * x + b).
+Proof. auto_derive; [exact I | ring]. Qed.
+
+Theorem fd_old_refuted :
+  exists (F : R -> R) (x h dF : R), h <> 0 /\ is_derive F x dF /\ fd_old F x h = dF / 2 /\ fd_old F x h <> dF.
+Proof.
+  exists (fun u => u), 0, 1, 1. split; [lra|]. split; [auto_derive; [exact I | ring]|].
+  unfold fd_old. split; [field | lra].
+Qed.
+
+(* Model_cfit.nll: with clip_log (patch_5) the stand-alone value is the value returned by nll_grad_batch
+   (FCN weights are already normalised: scale_w is idempotent); the old plain-ln value differs from it
+   as soon as one event density is below the clip threshold *)
+Theorem cfit_value_alongside_equals_standalone (fb : R) (w e f b V eg g bm : list R) :
+  rsum w <> 0 -> rsum (sqs w) <> 0 ->
+  cfit_call_clip fb (scale_w w) e f b V eg g bm = cfit_gradval fb (scale_w w) e f b V eg g bm.
+Proof.
+  intros Hs Hq. unfold cfit_call_clip, cfit_gradval. rewrite scale_w_idempotent by assumption. reflexivity.
+Qed.
+
+(* the OLD Model_cfit.nll (plain ln, NLL.cfit_call) is not the value nll_grad_batch returns (clip_log):
+   one event of density 1e-7 (normalised weights, no background): ln 1e-7 = -16.1 against clip_log 1e-7 = -15.1 *)
+Theorem cfit_old_value_alongside_refuted :
+  exists (fb : R) (W e f b V eg g bm : list R),
+    scale_w W = W /\ cfit_call fb W e f b V eg g bm <> cfit_gradval fb W e f b V eg g bm.
+Proof.
+  exists 0, [1], [1], [1 / 10000000], [1], [1], [1], [1], [1].
+  assert (E : scale_w [1] = [1]).
+  { unfold scale_w, alpha, sqs, rscale. cbn [map rsum]. f_equal. field. }
+  split; [exact E|].
+  unfold cfit_call, cfit_gradval. rewrite E.
+  unfold cfit_probs, sig_of, cfit_prob. cbn [rzip rdot map].
+  replace ((1 - 0) * (1 * (1 / 10000000)) / (1 * (1 * 1) + 0) + 0 * 1 / (1 * 1 + 0)) with (1 / 10000000) by field.
+  unfold clip_log. destruct (Rlt_dec eps_clip (1 / 10000000)) as [H|_]; [unfold eps_clip in H; lra|].
+  intros H. rewrite !Rmult_1_l, !Rplus_0_r in H. apply Ropp_eq_compat in H. rewrite !Ropp_involutive in H.
+  assert (L : ln (1 / 10000000) < ln eps_clip - 2).
+  { unfold eps_clip. replace (1 / 10000000) with (1 / 1000000 * / 10) by field.
+    rewrite ln_mult by lra. rewrite ln_Rinv by lra.
+    assert (2 < ln 10); [|lra].
+    rewrite <- (ln_exp 2). apply ln_increasing; [apply exp_pos|].
+    pose proof (exp_le_3) as H3. (* exp 1 <= 3 *)
+    replace 2 with (1 + 1) by ring. rewrite exp_plus. pose proof (exp_pos 1) as Hp.
+    assert (exp 1 * exp 1 <= 3 * 3) by (apply Rmult_le_compat; lra). lra. }
+  unfold eps_clip in *. rewrite H in L. lra.
+Qed.
